@@ -201,29 +201,33 @@ HdrVec(role, framing, name, xmlns, version, id, to, from, pre, cond) ==
   [role |-> role, framing |-> framing, name |-> name, xmlns |-> xmlns, version |-> version, id |-> id,
    to |-> to, from |-> from, pre |-> pre, cond |-> cond, lang |-> "absent", look |-> NoLook]
 
-AcceptVectors(pres, addrs) ==
+(* (ros, fs: the roles and framings wanted) *)
+AcceptVectorsOf(ros, fs, pres, addrs) ==
   {h \in {HdrVec(ro, f, n, ns, ve, i, t, fr, p, "") :
-             ro \in Roles, f \in Framings, n \in Names, ns \in {"client", "server", "other", "absent"},
+             ro \in ros, f \in fs, n \in Names, ns \in {"client", "server", "other", "absent"},
              ve \in Versions, i \in {"absent", "empty", "set"}, t \in addrs, fr \in addrs, p \in pres} :
      h.name = "open" => h.xmlns = "absent"}     \* <open/> declares no content namespace
-  \cup {HdrVec(ro, f, "error", "", VAbsent, "", "", "", p, c) : ro \in Roles, f \in Framings, p \in pres, c \in Conds}
+  \cup {HdrVec(ro, f, "error", "", VAbsent, "", "", "", p, c) : ro \in ros, f \in fs, p \in pres, c \in Conds}
+AcceptVectors(pres, addrs) == AcceptVectorsOf(Roles, Framings, pres, addrs)
 
 (* an otherwise good stream-open of the framing in use *)
 GoodHdr(ro, f, ve, i, t, fr, lg, lk) ==
   [HdrVec(ro, f, IF f = "ws" THEN "open" ELSE "stream", IF f = "ws" THEN "absent" ELSE "client", ve, i, t, fr, "none", "")
      EXCEPT !.lang = lg, !.look = lk]
 (* the version dimension: every form, both roles, both framings *)
-VersionVectors ==
-  {GoodHdr(ro, f, ve, "set", "valid", "valid", "absent", NoLook) : ro \in Roles, f \in Framings, ve \in VersionForms}
+VersionVectorsOf(ros, fs) ==
+  {GoodHdr(ro, f, ve, "set", "valid", "valid", "absent", NoLook) : ro \in ros, f \in fs, ve \in VersionForms}
+VersionVectors == VersionVectorsOf(Roles, Framings)
 (* the look-alike dimension: one look-alike next to every combination of present and   *)
 (* absent real attributes; two look-alikes next to all / none of the real attributes   *)
-LookVectors ==
+LookVectorsOf(ros, fs) ==
   {GoodHdr(ro, f, ve, i, t, fr, lg, lk) :
-     ro \in Roles, f \in Framings, ve \in {VAbsent, V10, V09}, i \in {"absent", "set"}, t \in {"absent", "valid"},
+     ro \in ros, f \in fs, ve \in {VAbsent, V10, V09}, i \in {"absent", "set"}, t \in {"absent", "valid"},
      fr \in {"absent", "valid"}, lg \in {"absent", "set"}, lk \in LookOne}
   \cup {GoodHdr(ro, f, y[1], y[2], y[3], y[3], y[4], lk) :
-           ro \in Roles, f \in Framings, lk \in LookTwo,
+           ro \in ros, f \in fs, lk \in LookTwo,
            y \in {<<V10, "set", "valid", "set">>, <<VAbsent, "absent", "absent", "absent">>, <<V09, "absent", "valid", "absent">>}}
+LookVectors == LookVectorsOf(Roles, Framings)
 (* (the three families are kept apart: TLC tests membership in a union of comprehensions by enumeration) *)
 
 IsOpenElement(v) == (v.framing = "tcp" /\ v.name = "stream") \/ (v.framing = "ws" /\ v.name = "open")
@@ -290,4 +294,161 @@ C12_VerdictMatchesExpectation ==
                    [] Expect(v) = "streamerror" -> verdict = "streamerror"
                    [] Expect(v) = "error" -> verdict \in {"streamerror", "reject"}
                    [] OTHER -> verdict \in {"accept", "reject"}
+
+-----------------------------------------------------------------------------
+(* Part (b'): SEQUENCES of headers across restarts                                     *)
+(*                                                                                      *)
+(* A session reads a header at the start of every stream: the first one and one after  *)
+(* every restart (STARTTLS, SASL, any feature whose negotiation returns a new           *)
+(* io.ReadWriter).  The property quantifies over "every sequence of headers across      *)
+(* restarts": header k is accepted only if header k ITSELF is the stream-open element,  *)
+(* declares a supported content namespace and version 1.0 and (initiator) a stream id   *)
+(* - whatever the headers before it said.  The only rule that looks back is the         *)
+(* address rule: after a restart a header whose addresses differ from those established *)
+(* is rejected (an address the header does not carry leaves the established one in      *)
+(* place; a receiver learns each address once).  What the session reports after header  *)
+(* k (Session.In()) is what header k said: id, version, language and content namespace  *)
+(* of an earlier stream are not properties of this one; to / from may be the            *)
+(* established addresses ("to/from preserved across restarts for comparison").          *)
+(*                                                                                      *)
+(* Structured like the code: session.go keeps ONE stream.Info for the input direction,  *)
+(* FromStartElement assigns the attributes the element carries, one by one, and Expect  *)
+(* checks the Info - so what the checks see is a MERGE of the current element with      *)
+(* whatever the Info held before.  `info[a]` records which header the value of          *)
+(* attribute a comes from (0 = none: cleared / preset by the constructor).  At a        *)
+(* restart negotiateSession clears everything but to / from.                            *)
+IAttrs == Attrs \cup {"xmlns"}
+AddrVals == {"absent", "valid", "other", "invalid"}    \* other = a valid address that is not the expected one
+(* the element carries the attribute (possibly with an empty / unusable value) *)
+Written(h, a) == CASE a = "id" -> h.id # "absent"
+                   [] a = "version" -> h.version.present
+                   [] a = "from" -> h.from # "absent"
+                   [] a = "to" -> h.to # "absent"
+                   [] a = "lang" -> h.lang = "set"
+                   [] a = "xmlns" -> h.xmlns # "absent" \/ h.name = "open"
+(* ... with a value a session can report *)
+CarriesI(h, a) == CASE a = "xmlns" -> h.xmlns # "absent" \/ h.name = "open"
+                    [] a \in {"to", "from"} -> h[a] \in {"valid", "other"}
+                    [] OTHER -> Carries(h, a)
+
+(* addresses established so far: the initiator's are the constructor's arguments, the   *)
+(* receiver learns them from the headers it accepts (each once)                        *)
+Estab0(ro) == IF ro = "init" THEN [to |-> "valid", from |-> "valid"] ELSE [to |-> "absent", from |-> "absent"]
+Learn(est, h) == [a \in {"to", "from"} |-> IF est[a] = "absent" /\ h[a] \in {"valid", "other"} THEN h[a] ELSE est[a]]
+(* (an address that does not parse is not the established one) *)
+AddrSame(est, h) == \A a \in {"to", "from"} : h[a] = "absent" \/ est[a] = "absent" \/ h[a] = est[a]
+
+VARIABLES hs,        \* the headers the peer has sent so far, one per stream
+          k,         \* the stream we are in (= Len(hs))
+          spc, sverdict,
+          info,      \* IAttrs -> 0..k
+          estab
+svars == <<hs, k, spc, sverdict, info, estab>>
+
+Cur == hs[k]
+ViewOf(a, none) == IF info[a] = 0 THEN none ELSE hs[info[a]][a]
+(* the header as the checks see it *)
+View == [Cur EXCEPT !.version = ViewOf("version", VAbsent), !.id = ViewOf("id", "absent"),
+                    !.xmlns = IF Cur.name = "open" THEN "absent" ELSE ViewOf("xmlns", "absent")]
+
+(* the first header of a session: h \in H *)
+SeqInit(H) ==
+  /\ \E h \in H : hs = <<h>>
+  /\ k = 1 /\ spc = "pre" /\ sverdict = "none"
+  /\ info = [a \in IAttrs |-> 0]
+  /\ estab = Estab0(hs[1].role)
+
+SReject(why) == spc' = "done" /\ sverdict' = why /\ UNCHANGED <<hs, k, info, estab>>
+SGoto(p) == spc' = p /\ UNCHANGED <<hs, k, sverdict, info, estab>>
+
+SSkipPre == spc = "pre" /\ (SGoto("error") \/ (Cur.pre # "none" /\ SReject("reject")))
+SCheckError == spc = "error" /\ IF Cur.name = "error" THEN SReject("streamerror") ELSE SGoto("name")
+SCheckName == spc = "name" /\ IF IsOpenElement(Cur) THEN SGoto("attrs") ELSE SReject("reject")
+SParseAttrs ==
+  /\ spc = "attrs"
+  /\ \/ /\ info' = [a \in IAttrs |-> IF Written(Cur, a) THEN k ELSE info[a]]
+        /\ spc' = "version" /\ UNCHANGED <<hs, k, sverdict, estab>>
+     \/ ("invalid" \in {Cur.to, Cur.from} \/ (Cur.version.present /\ ~PlainVersion(Cur.version))) /\ SReject("reject")
+SCheckVersion == spc = "version" /\ IF Is10(View.version) THEN SGoto("ns") ELSE SReject("reject")
+SCheckNs == spc = "ns" /\ IF NsSupported(View) THEN SGoto("id") ELSE SReject("reject")
+SCheckId == spc = "id" /\ IF IdOK(View) THEN SGoto("addr") ELSE SReject("reject")
+(* negotiator.go: the addresses against those established (the first header of a session *)
+(* is outside the rule: the property speaks of headers after a restart)                 *)
+SCheckAddr == spc = "addr" /\ IF k = 1 \/ AddrSame(estab, Cur) THEN (SReject("accept") \/ SReject("reject")) ELSE SReject("reject")
+(* negotiateSession: a restart clears the input Info but for the addresses, and the    *)
+(* peer sends its next header: any of Cont(hs), the continuations of the sequence so far *)
+(* (deviation of the non-vacuity run: the Info is not cleared)                          *)
+SRestart(Cont(_)) ==
+  /\ spc = "done" /\ sverdict = "accept"
+  /\ \E h \in Cont(hs) : hs' = Append(hs, h)
+  /\ k' = k + 1 /\ spc' = "pre" /\ sverdict' = "none"
+  /\ estab' = Learn(estab, Cur)
+  /\ info' = IF "KeepInfoAcrossRestart" \in Dev THEN info
+             ELSE [a \in IAttrs |-> IF a \in {"to", "from"} THEN info[a] ELSE 0]
+
+SeqStep == SSkipPre \/ SCheckError \/ SCheckName \/ SParseAttrs \/ SCheckVersion \/ SCheckNs \/ SCheckId \/ SCheckAddr
+(* Expectation for header j of the sequence s, given that the headers before it were    *)
+(* accepted: a function of header j and of the ADDRESSES of the earlier ones only.      *)
+RECURSIVE EstabAt(_, _)
+EstabAt(s, j) == IF j = 1 THEN Estab0(s[1].role) ELSE Learn(EstabAt(s, j - 1), s[j - 1])
+ExpectAt(s, j) ==
+  LET h == s[j] IN
+  IF h.name = "error" THEN (IF h.pre = "none" THEN "streamerror" ELSE "error")
+  ELSE IF MayAccept(h) /\ (j = 1 \/ AddrSame(EstabAt(s, j), h)) THEN "any" ELSE "reject"
+(* What a session that accepted header j reports: "real" = the value header j carries;  *)
+(* for an attribute it does not carry: "own" = nothing of an earlier header (and not a  *)
+(* look-alike's value); to / from: "notlook" (the established address may stay)         *)
+RecoverAt(s, j) ==
+  [a \in IAttrs |-> IF s[j].name # "error" /\ CarriesI(s[j], a) THEN "real"
+                    ELSE IF a \in {"to", "from"} THEN "notlook" ELSE "own"]
+
+C12_SeqAcceptOnlyIf ==
+  (spc = "done" /\ sverdict = "accept") => MayAccept(Cur) /\ (k > 1 => AddrSame(estab, Cur))
+C12_SeqInfoOwn ==
+  (spc = "done" /\ sverdict = "accept") =>
+     \A a \in IAttrs : /\ (Written(Cur, a) => info[a] = k)
+                       /\ (a \notin {"to", "from"} => info[a] \in {0, k})
+C12_SeqStreamErrorReturned ==
+  (spc = "done" /\ Cur.name = "error") => sverdict = "streamerror" \/ (Cur.pre # "none" /\ sverdict = "reject")
+C12_SeqVerdictMatchesExpectation ==
+  /\ estab = EstabAt(hs, k)
+  /\ spc = "done" => CASE ExpectAt(hs, k) = "reject" -> sverdict = "reject"
+                       [] ExpectAt(hs, k) = "streamerror" -> sverdict = "streamerror"
+                       [] ExpectAt(hs, k) = "error" -> sverdict \in {"streamerror", "reject"}
+                       [] OTHER -> sverdict \in {"accept", "reject"}
+
+(* The sequences.  Earlier headers are complete, acceptable headers of the framing in   *)
+(* use (all attributes, or none of the addresses so that a receiver learns them later); *)
+(* the LAST header is drawn from the universe of header variants of part (b).           *)
+Complete(ro, f) == GoodHdr(ro, f, V10, "set", "valid", "valid", "set", NoLook)
+Bare(ro, f) == GoodHdr(ro, f, V10, "set", "absent", "absent", "set", NoLook)
+Heads == {Complete(ro, f) : ro \in Roles, f \in Framings} \cup {Bare(ro, f) : ro \in Roles, f \in Framings}
+(* presence / value of every attribute next to an otherwise good stream-open *)
+SmallHdrs(ros, fs, pres) ==
+  {g \in {[GoodHdr(ro, f, ve, i, t, fr, lg, NoLook) EXCEPT !.xmlns = ns, !.pre = p] :
+            ro \in ros, f \in fs, ve \in {VAbsent, V10, V09}, i \in {"absent", "empty", "set"},
+            t \in AddrVals, fr \in AddrVals, lg \in {"absent", "set"}, ns \in {"client", "server", "absent"}, p \in pres} :
+     g.framing = "ws" => g.xmlns = "absent"}
+(* What may follow the accepted sequence s (same role, same framing):                    *)
+(*   one restart  - after a complete header every variant of part (b) (with the four     *)
+(*                  address values) and every look-alike vector; after a header without  *)
+(*                  addresses the attribute-presence family behind every prefix;         *)
+(*   two restarts - after <<complete, complete>> and <<bare, complete>> the               *)
+(*                  attribute-presence family.                                           *)
+(* (thorough tier, MaxStr >= 3: XML declaration / whitespace in front and every version   *)
+(* form after one restart; the whole product and the look-alikes after two)              *)
+SeqDeep == MaxStr >= 3
+SeqCont(s) ==
+  LET ro == s[1].role
+      f == s[1].framing
+  IN CASE s = <<Complete(ro, f)>> ->
+            AcceptVectorsOf({ro}, {f}, IF SeqDeep THEN {"none", "decl", "space"} ELSE {"none"}, AddrVals)
+            \cup LookVectorsOf({ro}, {f})
+            \cup (IF SeqDeep THEN VersionVectorsOf({ro}, {f}) ELSE {})
+       [] s = <<Bare(ro, f)>> -> SmallHdrs({ro}, {f}, {"none", "decl", "space"})
+       [] Len(s) = 2 /\ s[1] \in Heads /\ s[2] = Complete(ro, f) ->
+            SmallHdrs({ro}, {f}, {"none"})
+            \cup (IF SeqDeep THEN AcceptVectorsOf({ro}, {f}, {"none"}, AddrVals) \cup LookVectorsOf({ro}, {f}) ELSE {})
+       [] OTHER -> {}
+SeqNext == SeqStep \/ SRestart(SeqCont)
 =============================================================================
